@@ -49,6 +49,7 @@ def op_strategy(kind, none_p=True, only=None):
         st.tuples(st.just("dict"), st.lists(st.tuples(key, nets.attr_value).map(list), max_size=3), st.sampled_from(["w", "tag"])),
         st.tuples(st.just("dod"), st.lists(st.tuples(key, a).map(list), max_size=3), st.none()),
     )
+    nm = st.one_of(n, st.tuples(st.just("@"), st.integers(0, 5)).map(list))
     ops = [
         (3, "add_node", st.tuples(st.just("add_node"), n_or_none, a).map(list)),
         (2, "add_nodes_from", st.tuples(st.just("add_nodes_from"), st.lists(st.one_of(n, st.tuples(n, a).map(list)), max_size=3), a).map(list)),
@@ -66,7 +67,7 @@ def op_strategy(kind, none_p=True, only=None):
         (5, "add_node_to_edge", st.tuples(st.just("add_node_to_edge"), e_or_none, n_or_none, direction).map(list)),
         (3, "remove_edge", st.tuples(st.just("remove_edge"), e).map(list)),
         (2, "remove_edges_from", st.tuples(st.just("remove_edges_from"), st.lists(e, max_size=3)).map(list)),
-        (5, "remove_node_from_edge", st.tuples(st.just("remove_node_from_edge"), e, n, direction, b).map(list)),
+        (5, "remove_node_from_edge", st.tuples(st.just("remove_node_from_edge"), e, nm, direction, b).map(list)),
         (1, "set_net_attr", st.tuples(st.just("set_net_attr"), st.sampled_from(["name", "tag"]), nets.attr_value).map(list)),
         (0.5, "clear", st.tuples(st.just("clear"), b).map(list)),
         (1, "cleanup", st.tuples(st.just("cleanup"), b, b).map(list)),
@@ -132,6 +133,10 @@ def concretise(H, op):
             it[0] = r(it[0])
     elif name in ("add_node_to_edge", "remove_edge", "remove_node_from_edge"):
         op[1] = r(op[1])
+        if name == "remove_node_from_edge":
+            from .hops import member_ref
+
+            op[2] = member_ref(H, op[1], op[2], side=op[3] if op[3] in ("in", "out") and op[2] and isinstance(op[2], list) and op[2][1] % 3 else None)
     elif name == "remove_edges_from":
         op[1] = [r(x) for x in op[1]]
     return op
